@@ -56,3 +56,28 @@ Example C03_example_list_peak : task_peak 1 1 [AList 100 3] 0 10 = 400.
 Proof. vm_compute; reflexivity. Qed.
 Example C03_example_list_formula : formula 1 1 [AList 100 3] 0 10 = 220.
 Proof. vm_compute; reflexivity. Qed.
+
+(* D23 (known finding): with a compressor the write phase holds one more copy of the output
+   chunk than the wc the formula is given: the bound fails, by at most one output chunk, and
+   not at all when the read copies of the inputs cover one output chunk *)
+Theorem C03_compressed_write_refuted :
+  exists rc wc args extra out, 0 <= rc /\ 0 <= wc /\ 0 <= extra /\ 0 <= out /\
+    Forall arg_ok args /\ Forall single_or_stream args /\
+    task_peak rc (wc + 1) args extra out > formula rc wc args extra out.
+Proof. exact (compressed_write_refuted). Qed.
+Print Assumptions C03_compressed_write_refuted.
+
+Theorem C03_compressed_write_overrun_bounded : forall rc wc args extra out,
+  0 <= rc -> 0 <= wc -> 0 <= extra -> 0 <= out ->
+  Forall arg_ok args -> Forall single_or_stream args ->
+  task_peak rc (wc + 1) args extra out <= formula rc wc args extra out + out.
+Proof. exact (compressed_write_overrun_bounded). Qed.
+Print Assumptions C03_compressed_write_overrun_bounded.
+
+Theorem C03_compressed_write_within_when_inputs_cover : forall rc wc args extra out,
+  0 <= rc -> 0 <= wc -> 0 <= extra -> 0 <= out ->
+  Forall arg_ok args -> Forall single_or_stream args ->
+  out <= sumz (map asize args) * rc ->
+  task_peak rc (wc + 1) args extra out <= formula rc wc args extra out.
+Proof. exact (compressed_write_within_when_inputs_cover). Qed.
+Print Assumptions C03_compressed_write_within_when_inputs_cover.
